@@ -30,10 +30,10 @@ Edges == IF Q THEN <<63, 64, 65, 255, 256, 257, 513>>
 \* columns of the large Gauss matrices
 Sizes == IF Q THEN <<1000, 2000, 3000>> ELSE <<1000, 2000, 3000, 4500, 6000>>
 \* rows of the Lanczos matrices (the library itself switches to Lanczos above 5000 rows)
-LSizes == IF Q THEN <<128, 200, 520, 1000, 3000>> ELSE <<128, 200, 520, 1000, 2000, 3000, 5200, 6000>>
+LSizes == IF Q THEN <<128, 200, 520, 1000, 2000, 3000>> ELSE <<128, 200, 520, 1000, 2000, 3000, 5200, 6000>>
 \* shapes per size in the large families
-T == IF Q THEN 4 ELSE 8
-LT == IF Q THEN 2 ELSE 6
+T == IF Q THEN 6 ELSE 8
+LT == IF Q THEN 3 ELSE 6
 
 Sh(alg, r, c, k, prof, z, d) ==
   [alg |-> alg, nrows |-> r, ncols |-> c, corank |-> k, profile |-> prof, nzero |-> z, ndup |-> d]
